@@ -76,7 +76,7 @@ def showCast : Option (Int × Shape) → String
   | none => "TypeError"
 
 /-- Spec of an initial value: evaluate (`denote`), take the constant of the shape (`constOf`),
-reject integers outside a range shape; warnings are not part of the Spec. -/
+reject values outside a range shape; warnings are not part of the Spec. -/
 def specInit (arg : InitArg) (sa : ShapeArg) : String :=
   let shape : Shape := match sa with
     | .shape s => s
@@ -88,8 +88,10 @@ def specInit (arg : InitArg) (sa : ShapeArg) : String :=
   match val with
   | none => "TypeError"
   | some v =>
+    -- "a range-shaped signal rejects an initial value outside its range": whatever form the value was given in
     let rejected := match sa, arg with
-      | .range a b k, .int x => !specRangeMem a b k x
+      | .range _ _ _, .none => false
+      | .range a b k, _ => !specRangeMem a b k v
       | _, _ => false
     if rejected then "SyntaxError" else s!"ok,{Spec.constOf shape v}"
 
